@@ -433,6 +433,29 @@ fn syms_to_ops(prop: &str, syms: &[usize]) -> Vec<BOp> {
     ops
 }
 
+/// run one word and judge it; a verdict that depends on the wall clock (default iat/nbf/exp vs. the bracket) is
+/// re-established on up to two fresh executions before it counts, so that a clock step cannot raise an alarm
+fn judge(prop: &str, c: &Case, r: &mut Report) {
+    let mut attempt = 0;
+    loop {
+        let mut tmp = Report::new();
+        let run = run_word(c);
+        if prop == "C13" {
+            check_c13(c, &run, &mut tmp)
+        } else {
+            check_c17(c, &run, &mut tmp)
+        }
+        let clocky = tmp.violation_sigs.keys().any(|k| k.contains("default-iat-wrong") || k.contains("default-nbf-wrong") || k.contains("default-lifetime-wrong"));
+        if clocky && attempt < 2 {
+            attempt += 1;
+            r.discard("clock-dependent verdict re-established on a fresh execution");
+            continue;
+        }
+        r.merge(tmp);
+        return;
+    }
+}
+
 pub fn run(prop: &str, tier: &str, seed: u64) -> Report {
     let thorough = tier == "thorough";
     let pools = Pools::new(seed, 2, 2);
@@ -459,12 +482,7 @@ pub fn run(prop: &str, tier: &str, seed: u64) -> Report {
         let (len, base, _) = *counts.iter().rev().find(|(_, b, _)| i >= *b).unwrap();
         let ops = word(prop, k, len, i - base);
         let c = Case { p: P::V4L, key: key4.clone(), ops };
-        let run = run_word(&c);
-        if prop == "C13" {
-            check_c13(&c, &run, r)
-        } else {
-            check_c17(&c, &run, r)
-        }
+        judge(prop, &c, r);
         r.count("exhaustive words (v4.local)");
     });
     total.merge(r);
@@ -494,12 +512,7 @@ pub fn run(prop: &str, tier: &str, seed: u64) -> Report {
         let syms: Vec<usize> = (0..len).map(|_| if rng.chance(1, 6) { k - 1 } else { rng.below(k - 1) }).collect();
         let ops = syms_to_ops(prop, &syms);
         let c = Case { p, key: pools.key(p, j % pools.count(p)), ops };
-        let run = run_word(&c);
-        if prop == "C13" {
-            check_c13(&c, &run, r)
-        } else {
-            check_c17(&c, &run, r)
-        }
+        judge(prop, &c, r);
         r.count(&format!("random words {}", p.name()));
     });
     total.merge(r);
